@@ -60,6 +60,10 @@ impl<I: Iterator> Iterator for Counting<I> {
         self.n.fetch_add(1, Ordering::SeqCst);
         self.it.next()
     }
+    // transparent for everything but `next`: an operator that consults the hints sees those of the wrapped iterator
+    fn size_hint(&self) -> (usize, Option<usize>) {
+        self.it.size_hint()
+    }
 }
 
 type Src = Arc<Source<i64>>;
